@@ -108,12 +108,12 @@ def gpu_configs(batch: int) -> list[Config]:
     return out
 
 
-def small_dag_specs(maxn: int, canonical: bool = True) -> list[JobSpec]:
+def small_dag_specs(maxn: int, canonical: bool = True, mode: str = "sinks") -> list[JobSpec]:
     out = []
     for n in range(1, maxn + 1):
         dags = canonical_dags(n) if canonical else all_dags(n)
         for i, es in enumerate(dags):
-            out.append(simple_job(f"dag{n}.{i}/sinks", n, es, "sinks"))
+            out.append(simple_job(f"dag{n}.{i}/{mode}", n, es, mode))
     return out
 
 
